@@ -317,7 +317,7 @@ def loops_case(col, pid, rng, cidx, jobref):
             gate = threading.Event()
             own = loop.run_in_executor(None, gate.wait, 30)
             try:
-                return await asyncio.wait_for(d(*a6), 8)
+                return await asyncio.wait_for(d(*a6), 20)
             finally:
                 busy["foreign_items"] = app.items - 1
                 gate.set()
